@@ -267,7 +267,7 @@ def fix_to_float(signed, n_bits, n_frac):
         """
         if signed and value & (1 << (n_bits - 1)):
             # If signed and negative
-            value -= (1 << n_bits)
+            value = int(value) - (1 << n_bits)
 
         # Unsigned or signed and positive
         return float(value) / (2.0**n_frac)
